@@ -19,6 +19,7 @@ def gen_config(rng, tier: str, **force) -> dict:
         "dups": rng.random() < 0.2,
         "kinds": ["list"],
         "types": rng.choice([["Item"], ["Item"], ["Item", "Gadget"], ["Item", "Gadget", "Widget"]]),
+        "twins": rng.random() < 0.25,
         "all_selected": False,
         "setof_p": 0.5,
     }
@@ -38,6 +39,14 @@ def gen_world(rng, cfg) -> dict:
              "peer": rng.choice(labels),
              "kids": [rng.choice(labels) for _ in range(rng.randint(0, 2))]}
         objects.append({"l": l, "t": t, "f": f})
+    if cfg.get("twins") and n >= 2:
+        # value-equal twins: distinct objects that compare == and hash alike
+        i, j = rng.sample(range(n), 2)
+        objects[i]["t"] = objects[j]["t"] = "Twin"
+        for k in ("a", "b", "c"):
+            objects[j]["f"][k] = objects[i]["f"][k]
+        if rng.random() < 0.5:
+            objects[j]["f"]["tags"] = list(objects[i]["f"]["tags"])
     domains = {}
     for d in range(3):
         k = rng.randint(1, n)
